@@ -28,6 +28,7 @@ def install_all(reg):
     symbolic.install(reg)
     from . import control
     control.install(reg)
+    control.install_succession(reg)
     algorithms.install(reg)
     algorithms.install_skipnode(reg)
     algorithms.install_target(reg)
